@@ -12,3 +12,4 @@ import TLX.Props.Translated.Ports
 import TLX.Props.Translated.TlsSess
 import TLX.Props.Translated.Reasm
 import TLX.Props.Translated.Frames
+import TLX.Props.Translated.Checksum
